@@ -28,6 +28,10 @@ def gen_sup(rnd, case):
         else:
             k = rnd.randint(1, min(3, len(src_nodes)))
             keys = rnd.sample(src_nodes, k)
+            special = [n for n in src_nodes if case.model.nodes[n]['kind'] != 'named']
+            if special and rnd.random() < .7:   # key on a design-variable / metric / connector node
+                keys[0] = rnd.choice(special)
+                keys = list(dict.fromkeys(keys))
             n_opt = rnd.randint(2, k + 1)
             opts = ['s%d_%d' % (j + 1, i) for i in range(n_opt)]
             mp = [[kk, rnd.choice(opts)] for kk in keys]
@@ -207,7 +211,10 @@ def worker(task, col):
     for i in range(task['lo'], task['hi']):
         rnd = gen.rng_for('C20', task['seed'], i)
         r = rnd.random()
-        if r < .75:
+        if r < .2:
+            # sources with design-variable and metric nodes (existence mappings may be keyed on any node type)
+            sp = gen.gen_spec(rnd, p_incompat=.2, n_steps=(3, 8), n_dv=(1, 3), n_metric=(1, 2))
+        elif r < .75:
             sp = gen.gen_spec(rnd, p_incompat=.3, n_steps=(3, 9))
         elif r < .9:
             sp = gen.gen_spec(rnd, p_incompat=.3, allow=('opt_derived_by_origin',), p_opt_existing=.4)
